@@ -56,6 +56,8 @@ func runC15(a hx.Args) string {
 	base := 3 + np
 	t := transp.New(size0)
 	out := &hx.Nums{}
+	mapped := c15Documented(t, pool)
+	defer func() { _ = mapped }()
 	snap := func(ply Depth) {
 		for _, h := range pool {
 			c15Probe(out, t, h, ply)
@@ -78,13 +80,38 @@ func runC15(a hx.Args) string {
 		case 3:
 			t.Resize(a.Int(o + 1))
 			t.Clear()
+			mapped = mapped && c15Documented(t, pool)
 			snap(ply)
 		case 4:
 			t.Resize(a.Int(o + 1))
+			mapped = mapped && c15Documented(t, pool)
 			snap(ply)
 		}
 	}
+	if !mapped {
+		return "-5" // the table maps keys to buckets in another way than documented: see Spec/TTSpec.v other_mapping
+	}
 	return out.String()
+}
+
+// c15Documented: does the table place every key of the pool in the bucket the documented mapping names
+// (Lemire's reduction of the low 32 bits of the hash over the number of buckets)?
+func c15Documented(t *transp.Table, pool []uint64) (ok bool) {
+	defer func() {
+		if recover() != nil {
+			ok = true // an index panic is the runner's business, not this comparison's
+		}
+	}()
+	nb := uint64(t.VerifLen())
+	if nb == 0 {
+		return true
+	}
+	for _, h := range pool {
+		if uint64(t.VerifBucketIx(board.Hash(h))) != ((h&0xffffffff)*nb)>>32 {
+			return false
+		}
+	}
+	return true
 }
 
 type c15op struct {
@@ -612,6 +639,7 @@ type c15mop struct {
 }
 
 func runC15Multi(a hx.Args) string {
+	mappedMulti := true // see c15Documented
 	ntab := min(max(a.Int(0), 0), 8)
 	np := max(a.Int(1), 0)
 	if 2+np >= a.Len() {
@@ -668,6 +696,7 @@ func runC15Multi(a hx.Args) string {
 		}
 		flush(kind == 7 && a.I64(o+3)&1 == 1)
 		snap := func(t *transp.Table) {
+			mappedMulti = mappedMulti && c15Documented(t, pool)
 			for _, h := range pool {
 				c15Probe(out, t, h, ply)
 			}
@@ -702,6 +731,9 @@ func runC15Multi(a hx.Args) string {
 		}
 	}
 	flush(false)
+	if !mappedMulti {
+		return "-5"
+	}
 	return out.String()
 }
 
